@@ -216,3 +216,38 @@ def reuse(chk: Check, fn, rule: str, text: str, drop: tuple[str, ...] = (), *arg
     for r in drop:
         chk.rules.pop(r, None)
     chk.rules[rule] = text
+
+
+def resolve_simple(proj, ci, fi, expr: ast.AST, depth: int = 0) -> ast.AST:
+    """See through the two commonest indirections of a refactoring: a local that
+    is assigned once (`base = upstream.rstrip("/")`; `self.upstream = base`) and
+    a helper method of the class that consists of a single `return <expr>`
+    (`self._client = self._make_client(timeout)`), parameters substituted."""
+    import copy
+
+    if depth > 3 or expr is None:
+        return expr
+    if isinstance(expr, ast.Name):
+        ds = [st.value for st in walk(fi.node) if isinstance(st, ast.Assign) and len(st.targets) == 1 and isinstance(st.targets[0], ast.Name) and st.targets[0].id == expr.id]
+        if len(ds) == 1:
+            return resolve_simple(proj, ci, fi, ds[0], depth + 1)
+        return expr
+    if isinstance(expr, ast.Call):
+        d = dotted(expr.func) or ""
+        name = d.split(".")[-1]
+        callee = None
+        if d.startswith(("self.", "cls.")) or (ci is not None and d.startswith(ci.name + ".")):
+            callee = proj.find_method(ci, name) if ci is not None else None
+        if callee is not None:
+            body = [st for st in callee.node.body if not (isinstance(st, ast.Expr) and isinstance(st.value, ast.Constant))]
+            if len(body) == 1 and isinstance(body[0], ast.Return) and body[0].value is not None:
+                params = [a.arg for a in callee.node.args.args if a.arg not in ("self", "cls")]
+                sub = dict(zip(params, expr.args))
+                sub.update({k.arg: k.value for k in expr.keywords if k.arg})
+
+                class S(ast.NodeTransformer):
+                    def visit_Name(self, m):  # noqa: N802
+                        return copy.deepcopy(sub[m.id]) if m.id in sub else m
+
+                return resolve_simple(proj, ci, fi, S().visit(copy.deepcopy(body[0].value)), depth + 1)
+    return expr
